@@ -143,12 +143,16 @@ pub fn run(file: &str) {
                 "count" => obs.push(format!("C{}", vec.as_ref().unwrap().count())),
                 "snap" => {
                     let s: u32 = p[1].parse().unwrap();
-                    let (end, items) = vec.as_ref().unwrap().snapshot(s);
-                    obs.push(format!(
-                        "S{}:{}",
-                        end,
-                        items.iter().map(|(i, b)| format!("{}{}", i, if *b { "+" } else { "-" })).collect::<Vec<_>>().join(",")
-                    ));
+                    let v = vec.as_ref().unwrap().clone();
+                    match std::panic::catch_unwind(std::panic::AssertUnwindSafe(|| v.snapshot(s))) {
+                        Ok((end, items)) => obs.push(format!(
+                            "S{}:{}",
+                            end,
+                            items.iter().map(|(i, b)| format!("{}{}", i, if *b { "+" } else { "-" })).collect::<Vec<_>>().join(",")
+                        )),
+                        // snapshot asserts start <= count
+                        Err(_) => obs.push("SPANIC".into()),
+                    }
                 }
                 "drop" => {
                     // all threads must be finished or abandoned: finish them first
